@@ -677,7 +677,7 @@ Record merge_pre (h : heap) (i c2 : nat) : Prop := mkMP {
   mp_keys : NoDup (map (ckey h) (n_chans (nd h i))) }.
 
 Definition grafts (mode : mmode) (k : nkind) : bool :=
-  match mode, k with Repaired, _ => true | AsWritten, KMacro => true | _, _ => false end.
+  match mode, k with AsWritten, _ => true | Unpatched, KMacro => true | _, _ => false end.
 
 Definition fresh_sub (h : heap) (i c2 : nat) (c : nat) : nat :=
   if memn c (n_chans (nd h i)) then fresh_of h c2 c else c.
@@ -716,7 +716,7 @@ Definition m_h3 (mode : mmode) (h : heap) (i c2 : nat) : heap :=
   let n := nd h i in
   let o := nd h2 c2 in
   setn h2 i (mkNode (n_label o) (n_kind n) (n_parent n)
-                    (match mode with AsWritten => n_detached o | Repaired => n_detached n end)
+                    (match mode with Unpatched => n_detached o | AsWritten => n_detached n end)
                     (n_exec n) (n_running o) (n_failed o) (n_children o) (n_chans o)
                     (lookup_children h2 (n_children o) (map (fun s => n_label (nd h2 s)) (n_starting o)))).
 Definition m_h4 (mode : mmode) (h : heap) (i c2 : nat) : heap :=
@@ -739,8 +739,8 @@ Definition m_h7 (mode : mmode) (h : heap) (i c2 : nat) : heap :=
   else m_h6 mode h i c2.
 Definition m_final (mode : mmode) (h : heap) (i c2 : nat) : heap :=
   match mode with
-  | AsWritten => m_h7 mode h i c2
-  | Repaired =>
+  | Unpatched => m_h7 mode h i c2
+  | AsWritten =>
       let h7 := m_h7 mode h i c2 in
       let h8 := fold_left (fun h c => setc h c (c_with_owner (ch h c) i)) (n_chans (nd h7 i)) h7 in
       fold_left (fun h o => relink_one h i o) (local_data h i) h8
@@ -785,7 +785,7 @@ Section MergeStages.
 
   Lemma st3_i : nd (m_h3 mode h i c2) i =
     mkNode (n_label (nd h c2)) (n_kind (nd h i)) (n_parent (nd h i))
-           (match mode with AsWritten => n_detached (nd h c2) | Repaired => n_detached (nd h i) end)
+           (match mode with Unpatched => n_detached (nd h c2) | AsWritten => n_detached (nd h i) end)
            (n_exec (nd h i)) false (n_failed (nd h c2)) kids (n_chans (nd h c2))
            (lookup_children (m_h2 h i c2) kids
               (map (fun s => n_label (nd (m_h2 h i c2) s)) (n_starting (nd h c2)))).
@@ -823,17 +823,18 @@ Section MergeStages.
     let h4 := m_h4 mode h i c2 in
     ainv KS i c2 (m_h3 mode h i c2) h4 kids /\
     (forall k, In k kids -> n_parent (nd h4 k) = Some i) /\
-    nd h4 i = nd (m_h3 mode h i c2) i.
+    nd h4 i = nd (m_h3 mode h i c2) i /\
+    (forall j, ~ In j kids -> j <> c2 -> nd h4 j = nd (m_h3 mode h i c2) j).
   Proof.
     unfold m_h4. rewrite st2_kids.
     destruct (adopt_fold KS i c2 (mp_ne _ _ _ MP) (m_h3 mode h i c2) kids (mp_kids_c2 _ _ _ MP) (mp_kids_i _ _ _ MP)
                 kid_chans_in kids (m_h3 mode h i c2) (incl_refl _) st3_inv) as (A & B & _ & D).
-    split; [exact A|split; [exact B|]]. apply D; [exact (mp_kids_i _ _ _ MP)|exact (mp_ne _ _ _ MP)].
+    split; [exact A|split; [exact B|split; [|exact D]]]. apply D; [exact (mp_kids_i _ _ _ MP)|exact (mp_ne _ _ _ MP)].
   Qed.
 
   Lemma st4_kids_in : kids_in KS (m_h4 mode h i c2) i.
   Proof.
-    destruct st4 as (A & _ & E). intros k a. rewrite E, st3_i. simpl. intros Ik Ia.
+    destruct st4 as (A & _ & E & _). intros k a. rewrite E, st3_i. simpl. intros Ik Ia.
     destruct (ai_kid _ _ _ _ _ _ A k Ik) as (p & d & Ek & _). rewrite Ek in Ia.
     apply (kid_chans_in k a Ik Ia).
   Qed.
@@ -856,10 +857,11 @@ Section MergeStages.
     nd h6 i = nd (m_h3 mode h i c2) i /\
     closed KS h6 /\
     (forall k, In k kids -> n_parent (nd h6 k) = Some i /\
-                            n_running (nd h6 k) = n_running (nd h k) /\ n_failed (nd h6 k) = n_failed (nd h k)).
+                            n_running (nd h6 k) = n_running (nd h k) /\ n_failed (nd h6 k) = n_failed (nd h k)) /\
+    (forall j, j <> i -> j <> c2 -> ~ In j kids -> ~ In j (n_children (nd h i)) -> nd h6 j = nd h j).
   Proof.
-    destruct st4 as (A4 & P4 & I4). destruct st5 as ([N5 S5 O5] & C5). destruct st6_struct as [N6 C6].
-    simpl. split; [|split; [|split; [|split]]].
+    destruct st4 as (A4 & P4 & I4 & F4). destruct st5 as ([N5 S5 O5] & C5). destruct st6_struct as [N6 C6].
+    simpl. split; [|split; [|split; [|split; [|split]]]].
     - intros x Hx. destruct (C6 x) as [_ ->]. rewrite O5 by exact Hx.
       rewrite (ai_off _ _ _ _ _ _ A4 x Hx). now rewrite st3_ch.
     - intros c. destruct (C6 c) as [-> _]. rewrite S5. rewrite (ai_sig _ _ _ _ _ _ A4 c). now rewrite st3_ch.
@@ -867,6 +869,7 @@ Section MergeStages.
     - intros a b Ia. destruct (C6 a) as [_ ->]. now apply C5.
     - intros k Ik. rewrite N6, N5. split; [now apply P4|].
       destruct (ai_kid _ _ _ _ _ _ A4 k Ik) as (p & d & Ek & _). rewrite Ek, st3_kid by exact Ik. split; reflexivity.
+    - intros j J1 J2 J3 J4. rewrite N6, N5, F4 by assumption. rewrite st3_other by exact J1. now apply st2_other.
   Qed.
 End MergeStages.
 
@@ -894,7 +897,7 @@ Section MergeGraft.
     (forall x, ~ In x KS -> ~ In x news -> c_conns (ch h7 x) = map (fresh_sub h i c2) (c_conns (ch h x))) /\
     (forall o, In o origs -> c_conns (ch h7 (fresh_of h c2 o)) = c_conns (ch h o)).
   Proof.
-    destruct (st6 mode h i c2 MP) as (F1 & F2 & F3 & F4 & F5). fold KS in F1, F4.
+    destruct (st6 mode h i c2 MP) as (F1 & F2 & F3 & F4 & F5 & _). fold KS in F1, F4.
     unfold m_h7. rewrite GR. unfold local_data.
     rewrite (graft_fold_res h c2 i (n_chans (nd h i)) (m_h6 mode h i c2)). fold origs.
     2:{ exact (mp_match _ _ _ MP). }
@@ -931,7 +934,7 @@ End MergeGraft.
 Definition merge_post (h : heap) (i c2 : nat) (h' : heap) : Prop :=
   (* the node keeps its parent, its executor setting, its class; it is not running *)
   (n_parent (nd h' i) = n_parent (nd h i) /\ n_exec (nd h' i) = n_exec (nd h i) /\
-   n_kind (nd h' i) = n_kind (nd h i) /\ n_running (nd h' i) = false) /\
+   n_kind (nd h' i) = n_kind (nd h i) /\ n_running (nd h' i) = false /\ n_label (nd h' i) = n_label (nd h c2)) /\
   (* it holds the copy's children and IO panels; every new child names it as parent, flags as delivered *)
   (n_children (nd h' i) = n_children (nd h c2) /\ n_chans (nd h' i) = n_chans (nd h c2)) /\
   (forall k, In k (n_children (nd h c2)) ->
@@ -943,7 +946,9 @@ Definition merge_post (h : heap) (i c2 : nat) (h' : heap) : Prop :=
      c_conns (ch h' (fresh_of h c2 o)) = c_conns (ch h o)) /\
   (* every channel outside the copy lists the fresh channel exactly where it listed the old one *)
   (forall x, ~ In x (kidchans h c2) -> ~ In x (n_chans (nd h c2)) ->
-     c_conns (ch h' x) = map (fresh_sub h i c2) (c_conns (ch h x))).
+     c_conns (ch h' x) = map (fresh_sub h i c2) (c_conns (ch h x))) /\
+  (* no other node is touched: only the node, the copy, the copy's children and the released old children *)
+  (forall j, j <> i -> j <> c2 -> ~ In j (n_children (nd h c2)) -> ~ In j (n_children (nd h i)) -> nd h' j = nd h j).
 
 Lemma ckey_sig h h' c : csig (ch h' c) = csig (ch h c) -> ckey h' c = ckey h c.
 Proof. unfold csig, ckey. intros E. congruence. Qed.
@@ -953,14 +958,14 @@ Theorem merge_spec mode h i c2 :
   let h' := merge_remote mode h i c2 in
   merge_post h i c2 h' /\
   match mode with
-  | AsWritten => n_detached (nd h' i) = n_detached (nd h c2)
-  | Repaired => n_detached (nd h' i) = n_detached (nd h i) /\
+  | Unpatched => n_detached (nd h' i) = n_detached (nd h c2)
+  | AsWritten => n_detached (nd h' i) = n_detached (nd h i) /\
                 forall n, In n (n_chans (nd h' i)) -> c_owner (ch h' n) = i
   end.
 Proof.
   intros MP GR. simpl. rewrite merge_remote_staged.
   destruct (st7 mode h i c2 MP GR) as (N7 & S7 & C7 & D7).
-  destruct (st6 mode h i c2 MP) as (_ & _ & I6 & _ & K6).
+  destruct (st6 mode h i c2 MP) as (_ & _ & I6 & _ & K6 & FR6).
   assert (I7 : nd (m_h7 mode h i c2) i = nd (m_h3 mode h i c2) i) by (now rewrite N7).
   pose proof (st3_i mode h i c2 MP) as E3.
   (* the statement for any heap that agrees with h7 on nodes, connections, labels and panels *)
@@ -970,19 +975,20 @@ Proof.
                                        c_panel (ch h' x) = c_panel (ch (m_h7 mode h i c2) x)) ->
                             merge_post h i c2 h').
   { intros h' Nn Cc. unfold merge_post. rewrite !Nn, I7, E3. simpl.
-    split; [repeat split|split; [split; reflexivity|split; [|split]]].
+    split; [repeat split|split; [split; reflexivity|split; [|split; [|split]]]].
     - intros k Ik. rewrite Nn, N7. apply K6, Ik.
     - intros o Io. destruct (fresh_in h i c2 MP o Io) as [If Kf]. split; [exact If|]. split.
       + unfold ckey. destruct (Cc (fresh_of h c2 o)) as (_ & -> & ->).
         change (ckey (m_h7 mode h i c2) (fresh_of h c2 o) = ckey h o).
         rewrite <- Kf. apply ckey_sig. apply S7.
       + destruct (Cc (fresh_of h c2 o)) as (-> & _). now apply D7.
-    - intros x Nx Nn'. destruct (Cc x) as (-> & _). now apply C7. }
+    - intros x Nx Nn'. destruct (Cc x) as (-> & _). now apply C7.
+    - intros j J1 J2 J3 J4. rewrite Nn, N7. now apply FR6. }
   destruct mode.
   - unfold m_final. split; [apply POST; [reflexivity|intros; repeat split]|].
     rewrite I7, E3. reflexivity.
   - unfold m_final.
-    set (h7 := m_h7 Repaired h i c2) in *.
+    set (h7 := m_h7 AsWritten h i c2) in *.
     set (h8 := fold_left (fun h0 c => setc h0 c (c_with_owner (ch h0 c) i)) (n_chans (nd h7 i)) h7).
     destruct (owner_fold i (n_chans (nd h7 i)) h7) as (A8 & B8 & C8 & _). fold h8 in A8, B8, C8.
     assert (R : struct_eq h8 (fold_left (fun h0 o => relink_one h0 i o) (local_data h i) h8)).
@@ -1143,9 +1149,9 @@ Proof.
     rewrite (fold_nodes (fun h o => graft_one h i o)) by (intros; apply graft_one_nodes). exact H6. }
   unfold m_final. destruct mode; [exact H7|].
   destruct (fold_struct (fun h0 o => relink_one h0 i o) (fun h0 o => relink_one_struct h0 i o) (local_data h i)
-              (fold_left (fun h0 c => setc h0 c (c_with_owner (ch h0 c) i)) (n_chans (nd (m_h7 Repaired h i c2) i))
-                         (m_h7 Repaired h i c2))) as [N _].
-  rewrite N. destruct (owner_fold i (n_chans (nd (m_h7 Repaired h i c2) i)) (m_h7 Repaired h i c2)) as (A & _).
+              (fold_left (fun h0 c => setc h0 c (c_with_owner (ch h0 c) i)) (n_chans (nd (m_h7 AsWritten h i c2) i))
+                         (m_h7 AsWritten h i c2))) as [N _].
+  rewrite N. destruct (owner_fold i (n_chans (nd (m_h7 AsWritten h i c2) i)) (m_h7 AsWritten h i c2)) as (A & _).
   now rewrite A.
 Qed.
 
@@ -1395,19 +1401,19 @@ Definition merge_site (mode : mmode) (h : heap) (i : nat) : heap * nat :=
       end
   end.
 
-Definition site_child := merge_site AsWritten (submitted demo_child 2) 2.
+Definition site_child := merge_site Unpatched (submitted demo_child 2) 2.
 Definition as_for (h : heap) (i : nat) : heap :=
   let n := nd h i in
   setn h i (mkNode (n_label n) KFor (n_parent n) (n_detached n) (n_exec n) (n_running n) (n_failed n)
                    (n_children n) (n_chans n) (n_starting n)).
-Definition site_for := merge_site AsWritten (as_for (submitted demo_child 2) 2) 2.
+Definition site_for := merge_site Unpatched (as_for (submitted demo_child 2) 2) 2.
 
 Definition is_none {A} (o : option A) : bool := match o with None => true | Some _ => false end.
 
 (* S15: the merged macro has a parent AND the copy's detached path: its lexical path raises *)
 Theorem merge_path_refuted : exists h i c2,
   merge_pre h i c2 /\ n_kind (nd h i) = KMacro /\ n_parent (nd h i) <> None /\
-  lpath PFUEL h i = Some "/wf/n1" /\ lpath PFUEL (merge_remote AsWritten h i c2) i = None.
+  lpath PFUEL h i = Some "/wf/n1" /\ lpath PFUEL (merge_remote Unpatched h i c2) i = None.
 Proof.
   exists (fst site_child), 2, (snd site_child). split; [apply merge_preb_sound; vm_compute; reflexivity|].
   split; [vm_compute; reflexivity|]. split; [vm_compute; discriminate|]. split; vm_compute; reflexivity.
@@ -1417,7 +1423,7 @@ Qed.
 Theorem merge_owner_refuted : exists h i c2,
   merge_pre h i c2 /\ n_kind (nd h i) = KMacro /\
   forallb (fun c => Nat.eqb (c_owner (ch h c)) i) (n_chans (nd h i)) = true /\
-  let h' := merge_remote AsWritten h i c2 in
+  let h' := merge_remote Unpatched h i c2 in
   forallb (fun c => Nat.eqb (c_owner (ch h' c)) c2) (n_chans (nd h' i)) = true /\ n_chans (nd h' i) <> [].
 Proof.
   exists (fst site_child), 2, (snd site_child). split; [apply merge_preb_sound; vm_compute; reflexivity|].
@@ -1428,7 +1434,7 @@ Qed.
    listing the dead ones *)
 Theorem merge_for_refuted : exists h i c2 o x,
   merge_pre h i c2 /\ n_kind (nd h i) = KFor /\ In o (n_chans (nd h i)) /\ In x (c_conns (ch h o)) /\
-  let h' := merge_remote AsWritten h i c2 in
+  let h' := merge_remote Unpatched h i c2 in
   c_conns (ch h' (fresh_of h c2 o)) = [] /\ In o (c_conns (ch h' x)) /\ ~ In o (n_chans (nd h' i)).
 Proof.
   exists (fst site_for), 2, (snd site_for), 12, 7. split; [apply merge_preb_sound; vm_compute; reflexivity|].
@@ -1441,17 +1447,17 @@ Qed.
 Theorem merge_links_refuted :
   let out := match find_chan demo_links 2 POut "out" with Some c => c | None => 0 end in
   n_kind (nd demo_links 2) = KMacro /\ c_owner (ch demo_links out) = 2 /\
-  c_val (ch (fst (run_node AsWritten RFUEL demo_links 0)) out) = None /\
-  c_val (ch (fst (run_node Repaired RFUEL demo_links 0)) out) = Some 7%Z.
+  c_val (ch (fst (run_node Unpatched RFUEL demo_links 0)) out) = None /\
+  c_val (ch (fst (run_node AsWritten RFUEL demo_links 0)) out) = Some 7%Z.
 Proof. vm_compute. repeat split; reflexivity. Qed.
 
 (* the lock after a merge: the second time the macro is out, its inputs are no longer frozen *)
 Theorem lock_refuted_after_merge :
   let X := 0 in
-  let s := run_ops AsWritten X demo_alone [ORun; OComplete; ORun] in
+  let s := run_ops Unpatched X demo_alone [ORun; OComplete; ORun] in
   n_running (nd (c_heap s) X) = true /\ c_jobs s <> [] /\
-  c_log (step AsWritten X s (OSet "x" 9%Z)) = [OS "Future"; OS "done"; OS "Future"; OS "ok"] /\
-  c_log (step Repaired X (run_ops Repaired X demo_alone [ORun; OComplete; ORun]) (OSet "x" 9%Z))
+  c_log (step Unpatched X s (OSet "x" 9%Z)) = [OS "Future"; OS "done"; OS "Future"; OS "ok"] /\
+  c_log (step AsWritten X (run_ops AsWritten X demo_alone [ORun; OComplete; ORun]) (OSet "x" 9%Z))
     = [OS "Future"; OS "done"; OS "Future"; OS "RuntimeError"].
 Proof. vm_compute. repeat split; try reflexivity. discriminate. Qed.
 
@@ -1475,7 +1481,7 @@ Corollary neighbours_repointed mode h i c2 : merge_pre h i c2 -> grafts mode (n_
   (In o (c_conns (ch h x)) -> In f (c_conns (ch h' x))) /\ ~ In o (c_conns (ch h' x)).
 Proof.
   intros MP GR o x Io Ix. simpl.
-  destruct (merge_spec mode h i c2 MP GR) as [(_ & _ & _ & F & N) _].
+  destruct (merge_spec mode h i c2 MP GR) as [(_ & _ & _ & F & N & _) _].
   destruct (F o Io) as (F1 & F2 & F3). destruct (mp_nb _ _ _ MP o x Io Ix) as (N1 & N2 & N3).
   specialize (N x N1 N2). repeat split; try assumption.
   - intros I. rewrite N. apply in_map_iff. exists o. split; [|exact I].
@@ -1489,21 +1495,21 @@ Qed.
 
 (* a node without parent never ends with an unusable lexical path, whatever the copy carried *)
 Corollary merge_path_partial h i c2 : merge_pre h i c2 -> n_kind (nd h i) = KMacro -> n_parent (nd h i) = None ->
-  forall f, lpath (S f) (merge_remote AsWritten h i c2) i <> None.
+  forall f, lpath (S f) (merge_remote Unpatched h i c2) i <> None.
 Proof.
-  intros MP K P f. assert (GR : grafts AsWritten (n_kind (nd h i)) = true) by (rewrite K; reflexivity).
-  destruct (merge_spec AsWritten h i c2 MP GR) as [((Pp & _) & _) _].
+  intros MP K P f. assert (GR : grafts Unpatched (n_kind (nd h i)) = true) by (rewrite K; reflexivity).
+  destruct (merge_spec Unpatched h i c2 MP GR) as [((Pp & _) & _) _].
   simpl. rewrite Pp, P. destruct (n_detached _); discriminate.
 Qed.
 
 (* the patched merge gives the lock back: every channel of the node's panels is owned by the node *)
 Corollary repaired_lock_again h i c2 s l v c X :
-  merge_pre h i c2 -> c_heap s = merge_remote Repaired h i c2 -> X = i ->
+  merge_pre h i c2 -> c_heap s = merge_remote AsWritten h i c2 -> X = i ->
   find_chan (c_heap s) X PIn l = Some c -> n_running (nd (c_heap s) X) = true ->
-  step Repaired X s (OSet l v) = log s (c_heap s) (c_jobs s) "RuntimeError".
+  step AsWritten X s (OSet l v) = log s (c_heap s) (c_jobs s) "RuntimeError".
 Proof.
-  intros MP E -> F R. apply (lock_refuses Repaired i s l v c F).
-  destruct (merge_spec Repaired h i c2 MP eq_refl) as [_ [_ O]]. simpl in O.
+  intros MP E -> F R. apply (lock_refuses AsWritten i s l v c F).
+  destruct (merge_spec AsWritten h i c2 MP eq_refl) as [_ [_ O]]. simpl in O.
   destruct (find_chan_in _ _ _ _ _ F) as (I & _). rewrite E in I |- *. rewrite (O c I). rewrite <- E. exact R.
 Qed.
 
@@ -1808,3 +1814,38 @@ Proof.
     + rewrite <- PO. apply chans_of_agree; [now rewrite NX2, N1|reflexivity].
     + exact RO.
 Qed.
+
+
+(* ------------------------------------------------------------------ the code as it is now: corollaries *)
+Inductive reach (h : heap) : nat -> nat -> Prop :=
+| reach_refl j : reach h j j
+| reach_step j p m : n_parent (nd h j) = Some p -> reach h p m -> reach h j m.
+
+Lemma lpath_frame f : forall h h' j,
+  (forall m, reach h j m -> n_label (nd h' m) = n_label (nd h m) /\ n_parent (nd h' m) = n_parent (nd h m) /\
+                            n_detached (nd h' m) = n_detached (nd h m)) ->
+  lpath f h' j = lpath f h j.
+Proof.
+  induction f as [|f IH]; intros h h' j H; [reflexivity|]. simpl.
+  destruct (H j (reach_refl h j)) as (L & P & D). rewrite L, P, D.
+  destruct (n_parent (nd h j)) as [p|] eqn:Ep; [|reflexivity].
+  destruct (n_detached (nd h j)); [reflexivity|].
+  rewrite (IH h h' p); [reflexivity|]. intros m R. apply H. now apply (reach_step h j p m).
+Qed.
+
+(* the lexical path of the merged node is what it was (pickling keeps the label; the node's ancestors are none of
+   the objects the merge touches -- true of any tree) *)
+Theorem merge_path_kept h i c2 : merge_pre h i c2 -> n_label (nd h c2) = n_label (nd h i) ->
+  (forall m, reach h i m -> m = i \/ (m <> c2 /\ ~ In m (n_children (nd h c2)) /\ ~ In m (n_children (nd h i)))) ->
+  forall f, lpath f (merge_remote AsWritten h i c2) i = lpath f h i.
+Proof.
+  intros MP L A f. apply lpath_frame. intros m R.
+  destruct (merge_spec AsWritten h i c2 MP eq_refl) as [((P & _ & _ & _ & Lb) & _ & _ & _ & _ & FR) [D _]].
+  destruct (A m R) as [->|(M1 & M2 & M3)].
+  - rewrite Lb, L, P, D. auto.
+  - destruct (Nat.eq_dec m i) as [->|Ni]; [rewrite Lb, L, P, D; auto|].
+    rewrite (FR m Ni M1 M2 M3). auto.
+Qed.
+
+Definition site_now := merge_site AsWritten (submitted demo_child 2) 2.
+Definition site_for_now := merge_site AsWritten (as_for (submitted demo_child 2) 2) 2.
